@@ -173,6 +173,8 @@ func (ex *Exec) sidx(off, i string) string {
 	if _, ok := ex.sc.declared["sidx"]; !ok {
 		ex.sc.DeclareFun("sidx", []Sort{SInt, SInt}, SInt)
 		ex.sc.Assume("(forall ((o Int) (i Int)) (! (= (sidx o i) (+ o i)) :pattern ((sidx o i))))")
+		// re-association for slices of slices: s[l:][k] is s[l+k]
+		ex.sc.Assume("(forall ((o Int) (l Int) (k Int)) (! (= (sidx (sidx o l) k) (sidx o (+ l k))) :pattern ((sidx (sidx o l) k))))")
 	}
 	return mkApp("sidx", off, i)
 }
@@ -707,6 +709,7 @@ func (fr *Frame) loopEnv(l *Loop, phiVals map[*ssa.Phi]Val, st *State) *Env {
 		lc.IterCount = ex.get(st, it.Key, SInt)
 		lc.Enum = it.Enum
 		lc.Card = it.CardAt
+		lc.KeyT = it.KeyT
 	}
 	env.loop = lc
 	return env
